@@ -92,11 +92,15 @@ class Report:
         self.extra_coverage: Dict[str, Any] = {}
 
     # -- rule bookkeeping ------------------------------------------------
-    def rule(self, rule_id: str, text: str, floor: int = 1) -> None:
+    def rule(self, rule_id: str, text: str, floor: int = 1,
+             undecided_allowed: Optional[int] = None) -> None:
+        """`undecided_allowed`: how many instances the rule may leave undecided -- the number
+        confirmed by reading on the pinned tree.  More than that is not a pass: the rule no
+        longer decides the code it was confirmed on (exit 2)"""
         self.rules.setdefault(
             rule_id,
             {'text': text, 'floor': floor, 'instances': 0, 'holds': 0,
-             'violated': 0, 'undecided': 0},
+             'violated': 0, 'undecided': 0, 'undecided_allowed': undecided_allowed},
         )
 
     def _inst(self, rule_id: str, site: str, verdict: str, detail: str = '') -> None:
@@ -141,6 +145,13 @@ class Report:
     # -- finish ----------------------------------------------------------
     def enforce_floors(self) -> None:
         for rid, r in self.rules.items():
+            cap = r.get('undecided_allowed')
+            if cap is not None and r['undecided'] > cap and not r['violated']:
+                und = [i for i in self.instances if i['rule'] == rid
+                       and i['verdict'] == 'undecided']
+                raise AnalysisError(
+                    f'rule {rid} leaves {r["undecided"]} instance(s) undecided, {cap} on the '
+                    f'tree it was confirmed on: e.g. {und[-1]["site"]}: {und[-1]["detail"][:120]}')
             if r['instances'] < r['floor']:
                 raise AnalysisError(
                     f'rule {rid} matched {r["instances"]} instance(s), floor is '
